@@ -1,8 +1,397 @@
-//! C23 — not built yet.
+//! C23 — the library evaluator (`jq::eval`) and the generic evaluator used by the CLI
+//! (`jq::eval_generic::eval_with_cursor`) agree on every program (DESIGN §4 C23).
+//!
+//! One parse (`jq::parse`), two evaluations on `JsonIndex::build(text).root(text)`; compared are the
+//! output sequences (as values: O-jsonval reading of `OwnedValue::to_json`, numbers as doubles) and
+//! the way the stream ends (normal / error message + payload / break label / halt code).
+//! A panic in either evaluator is C30's business: counted and skipped here.
+//!
+//! Development aids (never set by run.sh): `VH_C23_PROBE=<file>` (lines `filter<TAB>json`) prints
+//! both outcomes; `VH_C23_COLLECT=<file>` appends every divergence instead of failing.
 use crate::engine::*;
+use crate::gen::jqprog::{self, Cfg, Profile, E};
+use crate::gen::json::{self as gjson, GenOpts, KeyPalette, StrPalette, J};
+use crate::isolate::IsoOpts;
+use crate::oracle::jsonval;
+use serde_json::{json, Value};
+use succinctly::jq::eval_generic::{self, GenericResult};
+use succinctly::jq::{self, Control, EvalError, Expr, JqSemantics, QueryResult};
+use succinctly::json::JsonIndex;
 
-pub const RULE: &str = "not built";
+pub const RULE: &str = "G-jqprog *full* profile (typed grammar generator: paths drawn from the input, pipe/comma, construction, arithmetic, comparison, and/or/not, //, if/elif, try/catch, ?, reduce/foreach, label/break, as-patterns incl. ?//, def with filter/value params, assignment operators, string interpolation, ~200 builtin rows) depth <= 4 x G-json inputs (duplicate keys, edge numbers, empty containers, nulls, random whitespace/escapes). parse once; jq::eval::<_, JqSemantics> vs eval_generic::eval_with_cursor; outputs compared as values, stream end compared exactly. Non-trivial: program with >= 3 AST nodes of >= 2 kinds that yields >= 1 output or an error in at least one evaluator; distinct by hash(program text, input text).";
+
+// ---------------------------------------------------------------- outcomes (shared with C30)
+
+#[derive(Clone, Debug, PartialEq)]
+pub enum End {
+    Normal,
+    Error { msg: String, payload: Option<String> },
+    Break(String),
+    Halt(i32),
+}
+
+impl End {
+    pub fn kind(&self) -> &'static str {
+        match self {
+            End::Normal => "normal",
+            End::Error { .. } => "error",
+            End::Break(_) => "break",
+            End::Halt(_) => "halt",
+        }
+    }
+}
+
+#[derive(Clone, Debug)]
+pub struct Outcome {
+    pub outs: Vec<String>,
+    pub end: End,
+}
+
+impl Outcome {
+    pub fn to_value(&self) -> Value {
+        let outs: Vec<&String> = self.outs.iter().take(12).collect();
+        json!({"outputs": outs, "n_outputs": self.outs.len(), "end": format!("{:?}", self.end)})
+    }
+}
+
+fn end_of_error(e: &EvalError) -> End {
+    End::Error { msg: e.message.clone(), payload: e.value.as_ref().map(|v| v.to_json()) }
+}
+
+fn end_of_control(c: &Control) -> End {
+    match c {
+        Control::Error(e) => end_of_error(e),
+        Control::Break(l) => End::Break(l.clone()),
+        Control::Halt(c) => End::Halt(*c),
+    }
+}
+
+pub fn outcome_full(r: QueryResult<'_, Vec<u64>>) -> Outcome {
+    let end = match &r {
+        QueryResult::Error(e) => end_of_error(e),
+        QueryResult::Break(l) => End::Break(l.clone()),
+        QueryResult::Halt(c) => End::Halt(*c),
+        QueryResult::Partial(_, c) => end_of_control(c),
+        _ => End::Normal,
+    };
+    let outs = r.collect_owned().iter().map(|v| v.to_json()).collect();
+    Outcome { outs, end }
+}
+
+pub fn outcome_generic<V: succinctly::jq::document::DocumentValue>(r: GenericResult<V>) -> Outcome {
+    match r {
+        GenericResult::Error(e) => Outcome { outs: vec![], end: end_of_error(&e) },
+        GenericResult::Break(l) => Outcome { outs: vec![], end: End::Break(l) },
+        GenericResult::Halt(c) => Outcome { outs: vec![], end: End::Halt(c) },
+        GenericResult::Partial(vs, c) => Outcome { outs: vs.iter().map(|v| v.to_json()).collect(), end: end_of_control(&c) },
+        GenericResult::LazySeq(seq) => match seq.materialize_atomic() {
+            Ok(o) => Outcome { outs: vec![o.to_json()], end: End::Normal },
+            Err(c) => Outcome { outs: vec![], end: end_of_control(&c) },
+        },
+        other => Outcome { outs: other.collect_owned().iter().map(|v| v.to_json()).collect(), end: End::Normal },
+    }
+}
+
+/// Evaluate with the library (full) evaluator; Err = (panic location, message).
+pub fn run_full(expr: &Expr, text: &[u8]) -> Result<Outcome, (String, String)> {
+    catch(|| {
+        let index = JsonIndex::build(text);
+        let cursor = index.root(text);
+        outcome_full(jq::eval::<Vec<u64>, JqSemantics>(expr, cursor))
+    })
+}
+
+/// Evaluate with the generic evaluator (the CLI's); Err = (panic location, message).
+pub fn run_generic(expr: &Expr, text: &[u8]) -> Result<Outcome, (String, String)> {
+    catch(|| {
+        let index = JsonIndex::build(text);
+        let cursor = index.root(text);
+        outcome_generic(eval_generic::eval_with_cursor(expr, cursor))
+    })
+}
+
+fn same_value_text(a: &str, b: &str) -> bool {
+    if a == b {
+        return true;
+    }
+    match (jsonval::parse_one(a.as_bytes()), jsonval::parse_one(b.as_bytes())) {
+        (Ok(x), Ok(y)) => gjson::j_eq(&x, &y),
+        _ => false,
+    }
+}
+
+/// None when the two outcomes agree; otherwise the kind of difference.
+pub fn diff_kind(f: &Outcome, g: &Outcome) -> Option<String> {
+    if f.end.kind() != g.end.kind() {
+        return Some(format!("end-{}-vs-{}", f.end.kind(), g.end.kind()));
+    }
+    if f.outs.len() != g.outs.len() {
+        return Some("output-count".into());
+    }
+    for (a, b) in f.outs.iter().zip(g.outs.iter()) {
+        if !same_value_text(a, b) {
+            return Some("output-value".into());
+        }
+    }
+    match (&f.end, &g.end) {
+        (End::Error { msg: m1, payload: p1 }, End::Error { msg: m2, payload: p2 }) => {
+            if m1 != m2 {
+                return Some("error-message".into());
+            }
+            // payload None == the message as a string
+            let norm = |p: &Option<String>, m: &String| p.clone().unwrap_or_else(|| serde_json::to_string(m).unwrap_or_default());
+            if !same_value_text(&norm(p1, m1), &norm(p2, m2)) {
+                return Some("error-payload".into());
+            }
+            None
+        }
+        (a, b) if a != b => Some(format!("{}-detail", a.kind())),
+        _ => None,
+    }
+}
+
+/// Both evaluators on one (program, input). Ok(None) = agree; Ok(Some(kind)) = differ; Err = panic.
+pub fn compare(expr: &Expr, text: &[u8]) -> Result<(Option<String>, Outcome, Outcome), (String, String, &'static str)> {
+    let f = run_full(expr, text).map_err(|(l, m)| (l, m, "full"))?;
+    let g = run_generic(expr, text).map_err(|(l, m)| (l, m, "generic"))?;
+    Ok((diff_kind(&f, &g), f, g))
+}
+
+// ---------------------------------------------------------------- generation
+
+pub fn gen_doc(u: &mut Src) -> J {
+    let o = GenOpts {
+        max_depth: u.range(0, 5),
+        max_nodes: u.range(1, 40),
+        dup_keys: u.ratio(1, 3),
+        strings: *u.pick(&[StrPalette::AsciiPlain, StrPalette::Ascii, StrPalette::Full]),
+        keys: *u.pick(&[KeyPalette::Ident, KeyPalette::Ident, KeyPalette::Ident, KeyPalette::AsStrings, KeyPalette::Hostile]),
+        numbers: *u.pick(&[0u8, 1, 2, 2]),
+        max_str_len: 12,
+    };
+    gjson::gen_value(u, &o)
+}
+
+const BORING: &[&str] = &["pipe", "identity", "lit", "path", "step:field", "step:index", "step:iter", "comma", "arrcons"];
+
+/// The culprit of a minimised divergent program: its deepest non-boring construct (ties: the last
+/// one in pre-order). `map(reverse)` -> `b:reverse/0`, `.[] | keys` -> `b:keys/0`.
+fn sig_features(ast: &E) -> String {
+    fn walk(e: &E, depth: usize, best: &mut (usize, String)) {
+        let k = e.kind_name();
+        if !BORING.contains(&k.as_str()) && depth >= best.0 {
+            *best = (depth, k);
+        }
+        for c in jqprog::children_of(e) {
+            walk(c, depth + 1, best);
+        }
+    }
+    let mut best = (0usize, String::new());
+    walk(ast, 0, &mut best);
+    if best.1.is_empty() {
+        let (_, set) = ast.features();
+        return set.into_iter().filter(|f| f != "pipe" && f != "identity").take(3).collect::<Vec<_>>().join("+");
+    }
+    best.1
+}
+
+/// AST-level delta debugging: smallest program (by node count) that still diverges on `text`.
+fn minimize(ast: &E, text: &[u8]) -> (E, String) {
+    let mut best = ast.clone();
+    let mut kind = String::new();
+    let mut evals = 0;
+    'outer: loop {
+        for cand in jqprog::shrink_candidates(&best) {
+            if evals > 1500 {
+                break 'outer;
+            }
+            let t = jqprog::print(&cand);
+            let Ok(Ok(expr)) = catch(|| jq::parse(&t)) else { continue };
+            evals += 1;
+            if let Ok((Some(k), _, _)) = compare(&expr, text) {
+                best = cand;
+                kind = k;
+                continue 'outer;
+            }
+        }
+        break;
+    }
+    (best, kind)
+}
+
+/// Signature of a divergence. Root-cause grouping: when the divergence exists only because the input
+/// has duplicate keys and it is the library evaluator that departs from the collapsed (first
+/// position, last value) view, all builtins share one signature.
+fn classify(kind: &str, feats: &str, doc: &J, filter: &str, mf: &Outcome, mg: &Outcome) -> String {
+    if doc.has_dup_keys() {
+        let collapsed = gjson::to_compact(&jsonval::collapse_dups(doc));
+        if let Ok(Ok(e)) = catch(|| jq::parse(filter)) {
+            if let Ok((None, cf, _)) = compare(&e, collapsed.as_bytes()) {
+                if diff_kind(&cf, mg).is_none() {
+                    return "C23/dupkeys/full-evaluator-keeps-shadowed-duplicate".to_string();
+                } else if diff_kind(&cf, mf).is_none() {
+                    return format!("C23/dupkeys/generic-evaluator-departs/{}", feats);
+                }
+            }
+        }
+    }
+    format!("C23/{}/{}", kind, feats)
+}
+
+fn check_case(u: &mut Src, st: &mut Stats, cfg: &Cfg) -> Result<(), Fail> {
+    let doc = gen_doc(u);
+    let prog = jqprog::gen_program(u, &doc, cfg);
+    let ro = gjson::render_opts(u);
+    let text = gjson::render(&doc, u, ro).text;
+    st.describe(|| json!({"filter": prog.text, "input": String::from_utf8_lossy(&text)}));
+    st.size(prog.text.len());
+    let expr = match catch(|| jq::parse(&prog.text)) {
+        Ok(Ok(e)) => e,
+        Ok(Err(_)) => {
+            st.class("parse-error");
+            st.sample("parse-error", || json!({"filter": prog.text}));
+            return Ok(());
+        }
+        Err(_) => {
+            st.class("panic-deferred-to-C30");
+            return Ok(());
+        }
+    };
+    st.class("parsed");
+    for f in &prog.feats {
+        st.class(&format!("feat:{}", f));
+    }
+    st.class_if(doc.has_dup_keys(), "doc-dup-keys");
+    st.evals(2);
+    let (d, f, g) = match compare(&expr, &text) {
+        Ok(x) => x,
+        Err((loc, msg, which)) => {
+            st.class("panic-deferred-to-C30");
+            if let Ok(path) = std::env::var("VH_C23_COLLECT") {
+                use std::io::Write;
+                if let Ok(mut fh) = std::fs::OpenOptions::new().create(true).append(true).open(path) {
+                    let _ = writeln!(fh, "PANIC/{}/{}\t{}", which, msg, json!({"filter": prog.text, "input": String::from_utf8_lossy(&text), "loc": loc}));
+                }
+            }
+            st.sample("panic", || json!({"filter": prog.text, "input": String::from_utf8_lossy(&text), "which": which, "loc": loc, "msg": msg}));
+            return Ok(());
+        }
+    };
+    st.class(&format!("end:{}", f.end.kind()));
+    st.class_if(f.outs.len() > 1, "outputs>1");
+    st.class_if(f.outs.is_empty() && f.end == End::Normal, "no-output");
+    st.class_if(f.outs != g.outs && d.is_none(), "text-differs-value-equal");
+    let nt = prog.nodes >= 3 && prog.kinds >= 2 && (!f.outs.is_empty() || !g.outs.is_empty() || f.end != End::Normal || g.end != End::Normal);
+    if nt {
+        st.class("nontrivial");
+        st.nontrivial(hash_str(&prog.text) ^ hash_bytes(&text).rotate_left(21));
+    }
+    st.digest(hash_str(&format!("{:?}{:?}", f.outs, f.end)));
+    st.sample(f.end.kind(), || json!({"filter": prog.text, "input": String::from_utf8_lossy(&text), "outcome": f.to_value()}));
+    let Some(kind0) = d else { return Ok(()) };
+    // divergence: minimise the program, derive a narrow signature
+    let (min_ast, kind) = minimize(&prog.ast, &text);
+    let kind = if kind.is_empty() { kind0 } else { kind };
+    let min_text = jqprog::print(&min_ast);
+    let (mf, mg) = match catch(|| jq::parse(&min_text)) {
+        Ok(Ok(e)) => match compare(&e, &text) {
+            Ok((_, a, b)) => (a, b),
+            Err(_) => (f.clone(), g.clone()),
+        },
+        _ => (f.clone(), g.clone()),
+    };
+    let feats = sig_features(&min_ast);
+    let sig = classify(&kind, &feats, &doc, &min_text, &mf, &mg);
+    if sig.starts_with("C23/dupkeys/full") {
+        st.class(&format!("dupkeys-finding:{}", feats));
+    }
+    let detail = json!({
+        "filter": min_text, "input": String::from_utf8_lossy(&text), "full": mf.to_value(), "generic": mg.to_value(),
+        "original_filter": prog.text, "kind": kind,
+    });
+    if let Ok(path) = std::env::var("VH_C23_COLLECT") {
+        use std::io::Write;
+        if let Ok(mut fh) = std::fs::OpenOptions::new().create(true).append(true).open(path) {
+            let _ = writeln!(fh, "{}\t{}", sig, detail);
+        }
+        return Ok(());
+    }
+    Err(Fail::new(sig, detail))
+}
+
+// ---------------------------------------------------------------- replays / probe
+
+fn replay_input(v: &Value) -> Option<Fail> {
+    let filter = v["input"]["filter"].as_str().unwrap_or(".");
+    let input = v["input"]["input"].as_str().unwrap_or("null");
+    let feats = v["input"]["sig_features"].as_str().unwrap_or("");
+    let expr = match catch(|| jq::parse(filter)) {
+        Ok(Ok(e)) => e,
+        Ok(Err(e)) => return Some(Fail::new("C23/replay/parse-error", json!({"filter": filter, "error": format!("{:?}", e)}))),
+        Err((loc, msg)) => return Some(Fail::new(format!("panic@{}", panic_sig(&loc)), json!({"filter": filter, "panic": msg}))),
+    };
+    match compare(&expr, input.as_bytes()) {
+        Ok((None, _, _)) => None,
+        Ok((Some(k), f, g)) => Some(Fail::new(classify(&k, feats, &jsonval::parse_one(input.as_bytes()).unwrap_or(J::Null), filter, &f, &g), json!({"filter": filter, "input": input, "full": f.to_value(), "generic": g.to_value()}))),
+        Err((loc, msg, which)) => Some(Fail::new(format!("C23/replay/panic-{}@{}", which, panic_sig(&loc)), json!({"filter": filter, "panic": msg}))),
+    }
+}
+
+fn probe(path: &str) {
+    let txt = std::fs::read_to_string(path).unwrap_or_default();
+    for line in txt.lines() {
+        let (filter, input) = line.split_once('\t').unwrap_or((line, "null"));
+        println!("== {}   <<< {}", filter, input);
+        match catch(|| jq::parse(filter)) {
+            Ok(Ok(e)) => {
+                println!("  full   : {:?}", run_full(&e, input.as_bytes()));
+                println!("  generic: {:?}", run_generic(&e, input.as_bytes()));
+                if let (Ok(f), Ok(g)) = (run_full(&e, input.as_bytes()), run_generic(&e, input.as_bytes())) {
+                    println!("  diff   : {:?}", diff_kind(&f, &g));
+                }
+            }
+            Ok(Err(e)) => println!("  parse error: {:?}", e),
+            Err(p) => println!("  parse PANIC: {:?}", p),
+        }
+    }
+}
+
+pub fn full_cfg() -> Cfg {
+    let mut cfg = Cfg::new(Profile::Full);
+    cfg.max_depth = 4;
+    // documented / by-design exclusions (see run()): non-deterministic or process-global state
+    cfg.exclude = ["b:now", "b:input", "b:inputs", "b:input_line_number", "b:debug", "b:stderr", "b:localtime", "b:line", "b:column", "b:at_offset", "b:at_position"].iter().map(|s| s.to_string()).collect();
+    // builtins / forms the generic evaluator implements natively (everything else falls back into
+    // the library evaluator on a re-serialised value): where drift can live
+    cfg.favor = ["first", "last", "keys", "keys_unsorted", "length", "map", "paths", "leaf_paths", "reverse", "select", "to_entries", "tonumber", "tostring", "type", "values", "scalars", "iterables", "isnull", "isboolean", "isnumber", "isstring", "isarray", "isobject", "empty", "pivot", "map_values", "has", "tojson", "@json", "@text", "@csv", "@base64", "@html", "@uri", "@sh", "@tsv"].iter().map(|s| s.to_string()).collect();
+    cfg
+}
 
 pub fn run(cx: &mut Ctx) {
-    cx.infra("check not built");
+    if let Ok(p) = std::env::var("VH_C23_PROBE") {
+        if !cx.is_child() {
+            probe(&p);
+        }
+        return;
+    }
+    cx.assume("both evaluators are called in-process on the same parsed Expr and the same JsonIndex cursor; outputs are rendered with OwnedValue::to_json and read back by the harness JSON value parser (numbers compared as doubles, object member order significant)");
+    cx.assume("excluded by construction: `now` (clock), `input`/`inputs`/`input_line_number` (process-global input queue the library entry points do not seed), `debug`/`stderr` (side channel only), `localtime` (TZ database); a panic in either evaluator is counted and left to C30");
+    cx.assume("documented evaluator differences excluded from the generator: `line`/`column` are always 0 in the library evaluator and `at_offset`/`at_position` need the generic evaluator's cursor context (doc comment of builtin_line in src/jq/eval.rs, doc comment of eval_generic::eval_with_cursor)");
+    for (name, v) in cx.replays.clone() {
+        if v["kind"] == "input" {
+            let r = replay_input(&v);
+            cx.replay_outcome(&name, r);
+        }
+    }
+    let cfg = full_cfg();
+    cx.check_isolated(
+        "full-vs-generic",
+        RULE,
+        Budget { quick: 60_000, thorough: 4_000_000, max_len: 1600 },
+        IsoOpts { watchdog_s: 20, rlimit_as_gib: 6, chunk: 1000, hang_is_inconclusive: false },
+        |u, st| check_case(u, st, &cfg),
+    );
+    for cl in ["nontrivial", "end:error", "end:normal", "outputs>1", "doc-dup-keys", "feat:reduce", "feat:foreach", "feat:label", "feat:trycatch", "feat:if", "feat:def", "feat:as", "feat:aspat", "feat:objcons", "feat:interp", "feat:assign:|=", "feat:assign:=", "feat:opt", "feat:op://"] {
+        cx.require_class("full-vs-generic", cl, 20);
+    }
 }
